@@ -65,6 +65,33 @@ inductive BlockKind | ifTaken | try | with | for
 inductive Wrap | classmethod | staticmethod
   deriving DecidableEq, Repr, Inhabited
 
+/-- an operand of the test of a guard `if <left> <op> <right>:` -/
+inductive Operand
+  | dunderName        -- `__name__`
+  | mainStr           -- `'__main__'`
+  | noneLit           -- `None`
+  deriving DecidableEq, Repr, Inhabited
+
+inductive CmpOp | eq | notEq | is | isNot
+  deriving DecidableEq, Repr, Inhabited
+
+/-- the test of an `if` that compares two operands once, possibly under `not` -/
+structure Guard where
+  left : Operand
+  op : CmpOp
+  right : Operand
+  negated : Bool      -- `if not <left> <op> <right>:` (the test is then an `ast.UnaryOp`, not an `ast.Compare`)
+  deriving DecidableEq, Repr, Inhabited
+
+/-- the value of the test when the module is imported: `__name__` is the module's name, a string other
+than `'__main__'`; equality and identity coincide on the three operands -/
+def Guard.onImport (g : Guard) : Bool :=
+  let same := g.left = g.right
+  let v := match g.op with
+    | .eq => same | .is => same
+    | .notEq => !same | .isNot => !same
+  if g.negated then !v else v
+
 inductive Stmt
   | classDef (name : Name) (bases : List Base) (decos : List Deco) (doc : Option (List Char)) (body : List Stmt)
   | funcDef (name : Name) (async : Bool) (decos : List Deco) (doc : Option (List Char))
@@ -74,6 +101,7 @@ inductive Stmt
   | block (kind : BlockKind) (body : List Stmt) (tail : List Stmt)
       -- `if True:` / `try:` / `with ctx():` / `for _ in [0]:` with the statements of the `else` (+`finally`) part in `tail`
   | ifMain (body : List Stmt)                                  -- `if __name__ == '__main__':`
+  | ifCmp (g : Guard) (body : List Stmt)                       -- `if [not] <operand> <op> <operand>:` (no `else`)
   | oldStyle (name : Name) (w : Wrap)                          -- `name = staticmethod(name)`
   | other                                                      -- `pass`, an import, a non-string expression
   deriving Repr, Inhabited
@@ -349,6 +377,11 @@ def handleAttrDoc (s : State) (text : List Char) : State :=
   | some n => { contents := upd s.contents n (fun o => { o with doc := some (cleandoc text) }), cur := none }
   | none => s
 
+/-- `visit_If`: `isinstance(node.test, ast.Compare) and astutils.is__name__equals__main__(node.test)` —
+left is the name `__name__`, one operator which is `==`, one comparator which is the string `'__main__'` -/
+def isNameEqualsMain (g : Guard) : Bool :=
+  !g.negated && g.left == .dunderName && g.op == .eq && g.right == .mainStr
+
 mutual
 /-- one statement of the body being walked; `inBlock` = a control-flow block lies between the
 statement and the scope (`is_constant`'s `get_parents` test) -/
@@ -360,6 +393,7 @@ def execStmt (c : Ctx) (inBlock : Bool) (s : State) : Stmt → Outcome
   | .attrDoc t => .ok (handleAttrDoc s t)
   | .block _ body _ => execList c true s body            -- `get_children`: only `.body`
   | .ifMain _ => .ok s                                    -- `visit_If`: SkipNode
+  | .ifCmp g body => if isNameEqualsMain g then .ok s else execList c true s body
   | .oldStyle n w => handleOldStyle c s n w inBlock
   | .other => .ok s
 def execList (c : Ctx) (inBlock : Bool) (s : State) : List Stmt → Outcome
@@ -545,6 +579,7 @@ def execStmt (c : Ctx) (ns : Ns) : Stmt → Outcome
       | .for => execList c ns' tail                        -- `else:` runs (the body does not `break`)
     | .raises => .raises
   | .ifMain _ => .ok ns                                    -- `__name__` is the module's name
+  | .ifCmp g body => if g.onImport then execList c ns body else .ok ns
   | .oldStyle n w =>
     match lookup ns n with
     | some o => .ok (bind ns n (match w with | .staticmethod => .sm o | .classmethod => .cm o))
@@ -607,7 +642,8 @@ end PySem
 that defined `name` as a plain method is the one allowed rebinding), decorators of a `def` are bare
 `classmethod` / `staticmethod` / `property` (in a class only, at most one of them per `def`), identity
 decorators defined in the package whose name does not end in `property`/`Property`, or non-name
-expressions; no `@x.setter` / `@x.deleter` / `@overload`; no bare annotation; `else`/`finally` parts bind nothing; an assigned name of a class does not
+expressions; no `@x.setter` / `@x.deleter` / `@overload`; no bare annotation; `else`/`finally` parts bind nothing; an
+`if` guarded by a comparison of `__name__`/`'__main__'`/`None` is skipped by pydoctor exactly when it is not taken on import; an assigned name of a class does not
 shadow an inherited method or nested class; the external base names reachable from a class are classified
 alike by `_STD_LIB_EXCEPTIONS` and by `builtins`. -/
 namespace Subset
@@ -671,6 +707,10 @@ def checkStmt (c : Ctx) (sn : Seen) : Stmt → Option Seen
   | .attrDoc _ => some sn
   | .block _ body tail => if tail.all inert then checkList c sn body else none
   | .ifMain _ => some sn
+  | .ifCmp g body =>
+    -- pydoctor skips the body exactly when the recogniser fires; CPython exactly when the test is false on import
+    if Builder.isNameEqualsMain g == g.onImport then none
+    else if Builder.isNameEqualsMain g then some sn else checkList c sn body
   | .oldStyle n _ =>
     if c.inClass && sn.plain.contains n then some { sn with plain := sn.plain.filter (· != n) } else none
   | .other => some sn
